@@ -1177,7 +1177,7 @@ class Exec:
             if not self.decide(p):
                 raise PathRaise("KeyError", n)
             v = base.entries[k][1]
-            if v is None:
+            if v is V.UNSET:
                 v = self.fresh_entry(base, k)
                 base.entries[k][1] = v
             return v
@@ -1520,6 +1520,9 @@ class Exec:
 
     def store_attr(self, base, attr, v, node, env, fr):
         if isinstance(base, Obj):
+            h = self.methods.get((base.cls, "__setattr__:" + attr))
+            if h is not None:
+                return h(self, base, node, env, fr)(v)
             self.frame_store(base, node, env, fr)
             base.fields[attr] = v
             return
